@@ -178,3 +178,52 @@ Proof.
     destruct (iter_script kd pre pa pb (items s)) as [[[y0 ya] yb] l']. cbn in K |- *. now apply Hsame.
   - (* clone *) rewrite clone_id by exact Hinv. cbn. now apply Hsame.
 Qed.
+
+(** ** consequences *)
+Definition entry_eq_dec : forall a b : entry, {a = b} + {a <> b}.
+Proof. decide equality; apply Z.eq_dec. Defined.
+
+Lemma in_cbl s l e : In e (cbl s l) -> In e l.
+Proof. unfold cbl. destruct (hascb s); [auto|intros []]. Qed.
+
+Lemma cb_only_departed s o e :
+  lru_inv s -> In e (snd (lstep s o)) ->
+  In e (items s) /\ ~ In (fst e) (keys (items (fst (fst (lstep s o))))).
+Proof.
+  intros Hinv Hin. rewrite (callback_exact s o Hinv) in Hin. unfold cb_expected in Hin. apply in_cbl in Hin.
+  unfold departed in Hin. apply filter_In in Hin. destruct Hin as [H1 H2].
+  split; [now apply in_rev|]. apply Bool.negb_true_iff in H2. now apply mem_false_iff.
+Qed.
+
+Lemma nodup_keys_nodup (l : list entry) : NoDup (keys l) -> NoDup l.
+Proof.
+  induction l as [|e l IH]; intros H; [constructor|]. rewrite keys_cons in H. inversion H; subst.
+  constructor; [|auto]. intros Hin. apply H2. now apply in_keys_of_in.
+Qed.
+
+Lemma count_occ_filter_nodup (f : entry -> bool) (l : list entry) e :
+  NoDup l -> In e l -> f e = true -> count_occ entry_eq_dec (filter f l) e = 1%nat.
+Proof.
+  intros Hnd Hin Hf.
+  assert (Hin' : In e (filter f l)) by (apply filter_In; auto).
+  assert (Hnd' : NoDup (filter f l)) by now apply NoDup_filter.
+  apply (proj1 (NoDup_count_occ' entry_eq_dec _) Hnd' e Hin').
+Qed.
+
+Lemma cb_exactly_once s o e :
+  lru_inv s -> hascb s = true -> In e (items s) ->
+  ~ In (fst e) (keys (items (fst (fst (lstep s o))))) ->
+  count_occ entry_eq_dec (snd (lstep s o)) e = 1%nat.
+Proof.
+  intros Hinv Hcb Hin Hout. rewrite (callback_exact s o Hinv). unfold cb_expected, cbl. rewrite Hcb.
+  unfold departed. apply count_occ_filter_nodup.
+  - apply NoDup_rev. apply nodup_keys_nodup. apply Hinv.
+  - rewrite <- in_rev. exact Hin.
+  - apply Bool.negb_true_iff. now apply mem_false_iff.
+Qed.
+
+Lemma cb_none_when_keys_stay s o :
+  lru_inv s -> keys (items (fst (fst (lstep s o)))) = keys (items s) -> snd (lstep s o) = [].
+Proof.
+  intros Hinv E. rewrite (callback_exact s o Hinv). unfold cb_expected. rewrite departed_same_keys by exact E. apply cbl_nil.
+Qed.
